@@ -36,6 +36,15 @@ def run(tier, seed, replay):
         E = chk.engine()
         CLI.install(E)
         chk.run_contract(E, c, variant=getattr(c, "variant", None), replay=replay_tree)
+    # known finding K10: --use-gitignore and a directory behind a symbolic link
+    if any(k["id"] == "K10" for k in chk.known):
+        w = run_native("discovery_harness", {"op": "k10"}, timeout=120)
+        chk.known_finding("K10", bool(w.get("still_fails")))
+    t0 = time.time()
+    dd = run_native("discovery_harness", {"op": "dotdot"}, timeout=120)
+    chk.finite("cli.paths_that_differ_by_leading_dots_are_different_files", not dd["violations"], dd["cases"],
+               {"violations": dd["violations"][:2]}, what=f"files named with ./ and ../ prefixes: {dd['violations'][:1]}",
+               time_s=time.time() - t0)
     nat = search()
     chk.add_bounded("norminette.__main__.main (real CLI in a subprocess) on generated directory trees",
                     "exactly the regular .c/.h files named, or found recursively under a named directory, are checked, "
